@@ -1111,13 +1111,19 @@ def _tag_tests(fn, cn, valnode, base=None):
     seen_if = 0
     p = fn.parent.get(node['i'])
     tops = [cn]
+    child = node
     while p is not None and seen_if < 10:
-        if p['k'] in ('IfStmt', 'BinaryOperator', 'ParenExpr', 'ImplicitCastExpr', 'CompoundStmt', 'SwitchStmt', 'CaseStmt'):
-            if p['k'] == 'IfStmt':
-                seen_if += 1
-                tops.append(kids(p)[0])
-            elif p['k'] == 'SwitchStmt':
-                tops.append(kids(p)[0])
+        if p['k'] == 'IfStmt':
+            seen_if += 1
+            ks = kids(p)
+            # only a condition whose THEN branch (or whose own condition) contains the node says anything about it
+            if len(ks) > 1 and ks[0] is not None and (ks[1] is child or ks[0] is child or
+                                                      (ks[1] is not None and ks[1].get('i') == child.get('i')) or
+                                                      ks[0].get('i') == child.get('i')):
+                tops.append(ks[0])
+        elif p['k'] == 'SwitchStmt':
+            tops.append(kids(p)[0])
+        child = p
         p = fn.parent.get(p['i'])
     for t in tops:
         if t is None:
